@@ -180,6 +180,17 @@ def correspondence(ctx, model_ok=True):
             cen_cases.append(vlib.case_line("dir-%s-%s" % (name, tag), ["S:" + vlib.hx(s), "G"], gc="default", steps=400000000))
     real = vlib.run_real(runner, cen_cases)
     cen_checked = 0
+    recounts = 0
+    for case, r in zip(cen_cases, real):
+        # the counter the pacing decisions are taken on is what is actually on the heap: an independent recount of the live payload
+        st = ((r.get("steps") or [{}, {}])[1] if isinstance(r, dict) and len(r.get("steps") or []) > 1 else {}).get("stats") or {}
+        if "payload_bytes" in st:
+            recounts += 1
+            if st["payload_bytes"] != st["bytes"]:
+                failures.append({"what": "the heap's byte counter (%d) differs from a recount of the objects on the heap (%d payload bytes): collections are paced "
+                                         "on a drifting number" % (st["bytes"], st["payload_bytes"]), "case": case, "signature": "byte counter drifts from the recount",
+                                 "failing_input": True})
+                break
     for i, (a, b) in enumerate(srcs):
         ra, rb = real[2 * i], real[2 * i + 1]
         try:
@@ -225,7 +236,7 @@ def correspondence(ctx, model_ok=True):
         "paced_collections_observed": total_collections,
         "max_bytes_over_threshold_between_collections": max_over,
         "traces_validated_against_impl": len(per_prog),
-        "census_comparisons": cen_checked,
+        "census_comparisons": cen_checked, "byte_counter_recounts": recounts,
         "programs": len(pace_progs) + 2 * n_cen + n_tr,
     }
     return {"failures": failures, "coverage": cov, "broken": broken}
